@@ -46,6 +46,17 @@ class StrictMove:
         p = object.__getattribute__(self, "_p")
         p["violations"].append("write:" + name)
 
+    # a user object may well compare equal to another one (dataclass, settings-only __eq__); the driver has
+    # no business asking
+    def __eq__(self, other):
+        p = object.__getattribute__(self, "_p")
+        if isinstance(other, StrictMove) and other is not self:
+            p["violations"].append("compared:__eq__")
+        return isinstance(other, StrictMove)
+
+    def __hash__(self):
+        return 1
+
     def __call__(self, context):
         p = object.__getattribute__(self, "_p")
         k = p["calls"]
@@ -150,6 +161,11 @@ def sc_driver(V, driver="Canonical", with_shipped=False, trials=2, effect=None):
     except Exception as ex:  # noqa: BLE001
         V.fail("can-be-added-with-explicit-criteria", info=info + ":" + type(ex).__name__)
         return
+    twin = None
+    if driver in ("GrandCanonical", "Isobaric"):
+        # a second, idle user move with the same settings (compares equal): it must be notified too
+        twin = StrictMove(V, "none", [])
+        mc.add_move(twin, StrictCriteria(V, []), name="user_twin", probability=0.0)
     if with_shipped and driver != "MonteCarlo":
         from quansino.moves.displacement import DisplacementMove
         from quansino.operations.displacement import Box
@@ -204,6 +220,10 @@ def sc_driver(V, driver="Canonical", with_shipped=False, trials=2, effect=None):
             if acc[t]:
                 want.append(([counts[t]], []))
         V.prove(pm["atoms_notes"] == want, "notified-of-every-accepted-atom-count-change", info=info + f":got={pm['atoms_notes']}:want={want}")
+        if twin is not None:
+            pt = object.__getattribute__(twin, "_p")
+            V.prove(pt["atoms_notes"] == want, "every-move-in-the-table-is-notified", info=info + f":idle-move-got={pt['atoms_notes']}:want={want}")
+            V.prove(not pt["violations"], "move-touched-only-through-the-protocol", info=info + ":idle:" + ",".join(pt["violations"][:3]))
     else:
         V.prove(all(not a and not r for a, r in pm["atoms_notes"]), "no-atom-notification-without-change", info=info)
     if eff == "cell":
@@ -216,6 +236,9 @@ def sc_driver(V, driver="Canonical", with_shipped=False, trials=2, effect=None):
                     ok = ok and mcsim.same(V, pm["cell_notes"][k], cells[t + 1])
                     k += 1
         V.prove(ok, "notified-of-every-accepted-cell-change", info=info + f":notes={len(pm['cell_notes'])}:accepted={nacc}")
+        if twin is not None:
+            pt = object.__getattribute__(twin, "_p")
+            V.prove(len(pt["cell_notes"]) == nacc, "every-move-in-the-table-is-notified", info=info + f":idle-move-notes={len(pt['cell_notes'])}:accepted={nacc}")
     else:
         V.prove(len(pm["cell_notes"]) == 0, "no-cell-notification-without-change", info=info)
 
